@@ -20,12 +20,13 @@ let show_res (c : nat acall) (r : nat out) : string =
   | _, OOpt None -> "None"
   | _, OOpt (Some v) -> Printf.sprintf "Some(%d)" (n2i v)
   | _, OUnit -> "()"
+  | _, OSubId k -> Printf.sprintf "#%d" (n2i k)
   | _ -> "?"
 
 let parse_call (name : string) (a : int list) : nat acall option =
   let a0 () = i2n (List.nth a 0) in
   match name with
-  | "set" -> Some (ASet (a0 ())) | "get" -> Some AGet
+  | "set" -> Some (ASet (a0 ())) | "get" -> Some AGet | "subscribe" -> Some ASubscribe
   | "set_if_not_eq" -> Some (AUpd (WSetIfNotEq (a0 ()))) | "set_if_hash_not_eq" -> Some (AUpd (WSetIfHashNotEq (a0 ())))
   | "take" -> Some (AUpd WTake) | "update" -> Some (AUpd (WUpdate (a0 ())))
   | "update_if" -> Some (AUpd (WUpdateIf (a0 (), List.nth a 1 = 1))) | "write" -> Some AWrite | "read" -> Some ARead
